@@ -1,6 +1,7 @@
 package props
 
 import (
+	"io"
 	"bufio"
 	"bytes"
 	"compress/zlib"
@@ -147,7 +148,7 @@ func mutate(r *gen.Rng, bases []baseTable, bi int) (data []byte, kind string) {
 		fsz = 72
 	}
 	body := len(d) - fsz
-	k := r.Intn(18)
+	k := r.Intn(21)
 	repair := r.Chance(0.7)
 	switch k {
 	case 0:
@@ -356,6 +357,17 @@ func mutate(r *gen.Rng, bases []baseTable, bi int) (data []byte, kind string) {
 			}
 		}
 		repair = false
+	case 18, 19, 20:
+		// structure-aware edits INSIDE a compressed log block: inflate it, edit the plain
+		// records / restart table, deflate again with a consistent block length - flips of
+		// the compressed bytes almost always die in the inflater and never reach the log
+		// record decoder with a well-formed envelope
+		kind = "log-plaintext"
+		if nd, sub := mutateLogPlain(r, src, hs, fsz); nd != nil {
+			d = nd
+			kind += "-" + sub
+			repair = true
+		}
 	case 15:
 		kind = "dup-tail"
 		// append the footer again / insert zeros before the footer
@@ -372,6 +384,125 @@ func mutate(r *gen.Rng, bases []baseTable, bi int) (data []byte, kind string) {
 		fixCRC(d)
 	}
 	return d, kind
+}
+
+// mutateLogPlain rewrites one log block of a valid table: the zlib stream is inflated, the
+// plain bytes are edited, and the block is deflated again with block_len and (for cuts) the
+// restart table made consistent, so that the edit reaches the record decoder. Later blocks
+// move; the footer's log index position is shifted with them.
+func mutateLogPlain(r *gen.Rng, src []byte, hs, fsz int) ([]byte, string) {
+	info, _ := dec.Decode(src, dec.Options{StructuralOnly: true})
+	if info == nil {
+		return nil, ""
+	}
+	var gs []int
+	for i := range info.Blocks {
+		if info.Blocks[i].Type == 'g' {
+			gs = append(gs, i)
+		}
+	}
+	if len(gs) == 0 {
+		return nil, ""
+	}
+	bi := gs[len(gs)-1]
+	if r.Chance(0.4) {
+		bi = gs[r.Intn(len(gs))]
+	}
+	b := &info.Blocks[bi]
+	hp := b.Off
+	if b.Off == 0 {
+		hp = hs
+	}
+	end := b.Off + b.FullLen
+	if hp+4 >= end || end > len(src)-fsz {
+		return nil, ""
+	}
+	zr, err := zlib.NewReader(bytes.NewReader(src[hp+4 : end]))
+	if err != nil {
+		return nil, ""
+	}
+	plain, err := io.ReadAll(io.LimitReader(zr, 1<<24))
+	if err != nil || len(plain) < 2 {
+		return nil, ""
+	}
+	pre := hp - b.Off + 4 // bytes of the block before the plain part (restart offsets count them)
+	nr := int(binary.BigEndian.Uint16(plain[len(plain)-2:]))
+	recEnd := len(plain) - 2 - 3*nr
+	if recEnd <= 0 {
+		return nil, ""
+	}
+	var restarts []int
+	for i := 0; i < nr; i++ {
+		o := plain[recEnd+3*i:]
+		restarts = append(restarts, int(o[0])<<16|int(o[1])<<8|int(o[2]))
+	}
+	sub := ""
+	switch r.Intn(6) {
+	case 0, 1:
+		// cut the record area at any byte (often inside the last records) and close the
+		// block properly: the restart entries that still point into it, and their count
+		sub = "cut"
+		c := r.Intn(recEnd + 1)
+		if r.Chance(0.5) {
+			c = recEnd - r.Intn(mini(recEnd, 160)+1)
+		}
+		np := append([]byte(nil), plain[:c]...)
+		n := 0
+		for _, o := range restarts {
+			if o-pre < c {
+				np = append(np, byte(o>>16), byte(o>>8), byte(o))
+				n++
+			}
+		}
+		np = append(np, byte(n>>8), byte(n))
+		plain = np
+	case 2:
+		sub = "flip"
+		for i, n := 0, 1+r.Intn(3); i < n; i++ {
+			plain[r.Intn(recEnd)] ^= 1 << uint(r.Intn(8))
+		}
+	case 3:
+		sub = "byteset"
+		for i, n := 0, 1+r.Intn(4); i < n; i++ {
+			plain[r.Intn(recEnd)] = []byte{0, 0xff, 0x80, 0x7f, byte(r.Intn(256))}[r.Intn(5)]
+		}
+	case 4:
+		sub = "varint"
+		q := r.Intn(recEnd)
+		for i, n := 0, 1+r.Intn(10); i < n && q+i < recEnd; i++ {
+			plain[q+i] = 0x80 | byte(r.Intn(128))
+		}
+	case 5:
+		// restart table edits: offsets into the table itself, past the block, before the
+		// first record, descending; or a wrong count
+		sub = "restart"
+		if nr > 0 && r.Chance(0.7) {
+			i := r.Intn(nr)
+			v := []int{0, pre - 1, pre + recEnd, pre + recEnd + 1, pre + len(plain) - 1, pre + len(plain), 0xffffff, pre + r.Intn(recEnd)}[r.Intn(8)]
+			o := plain[recEnd+3*i:]
+			o[0], o[1], o[2] = byte(v>>16), byte(v>>8), byte(v)
+		} else {
+			v := []int{0, nr + 1, nr - 1, 0xffff, len(plain) / 3}[r.Intn(5)]
+			binary.BigEndian.PutUint16(plain[len(plain)-2:], uint16(v))
+		}
+	}
+	var zb bytes.Buffer
+	zw, _ := zlib.NewWriterLevel(&zb, 9)
+	zw.Write(plain)
+	zw.Close()
+	nd := append([]byte(nil), src[:hp+4]...)
+	bl := pre + len(plain)
+	nd[hp+1], nd[hp+2], nd[hp+3] = byte(bl>>16), byte(bl>>8), byte(bl)
+	nd = append(nd, zb.Bytes()...)
+	delta := len(nd) - end
+	nd = append(nd, src[end:]...)
+	f := nd[len(nd)-fsz:]
+	// footer: ... log_position u64, log_index_position u64, crc u32
+	lip := binary.BigEndian.Uint64(f[fsz-12:])
+	if lip >= uint64(end) {
+		binary.BigEndian.PutUint64(f[fsz-12:], uint64(int64(lip)+int64(delta)))
+	}
+	return nd, sub
 }
 
 // encVarint is the reftable varint encoding (own copy for the mutator).
